@@ -1,6 +1,7 @@
 #!/bin/bash
-# usage: mut.sh <file-in-repo> <old> <new> <vc-pattern>   (applies, runs govc vc, reverts)
+# usage: mut.sh <file-in-repo> <old> <new> <vc-pattern>   (applies, runs govc vc, restores the file from a backup copy)
 cd /repo || exit 2
+cp "$1" /tmp/mut.bak
 python3 - "$1" "$2" "$3" <<'PY'
 import sys
 f,a,b=sys.argv[1:4]
@@ -10,4 +11,4 @@ if s.count(a)<1:
 open(f,'w').write(s.replace(a,b,1))
 PY
 [ $? -eq 0 ] && /verif/bin/govc vc "$4" 2>&1 | grep -v "^discharged" | cut -c1-200
-git checkout -q -- "$1"
+cp /tmp/mut.bak "$1"
